@@ -89,60 +89,53 @@ theorem parentOk_unsrc (cs : Syn) (st : List Frame) :
   | nil => rfl
   | cons f fs => cases cs <;> simp [parentOk, Frame.unsrc]
 
-/-- outside raw mode, on a token that does not open a raw block, one step of the block parser
-    commutes with erasing the sources of tag and object tokens, and stays outside raw mode -/
+/-- a token whose source `unsrc` keeps -/
+theorem unsrc_of_not_tag_obj {t : Token} (h1 : t.ty ≠ .tag) (h2 : t.ty ≠ .obj) : unsrc t = t := by
+  unfold unsrc
+  split
+  · next h => exact absurd h h1
+  · next h => exact absurd h h2
+  · rfl
+
+/-- one step of the block parser commutes with erasing the sources of tag and object tokens, provided that in
+    raw mode the token is the `endraw` tag or neither a tag nor an object (a raw body keeps token SOURCES) -/
 theorem parseStep_unsrc (g : Grammar) (chk : Bytes → Option Cause) (s : PState) (t : Token)
-    (hm : s.mode.isRaw = false) (ht : ¬ (t.ty = .tag ∧ t.name = rawName)) :
-    parseStep g chk s.unsrc (unsrc t) = (parseStep g chk s t).mapOk PState.unsrc ∧
-    (∀ s', parseStep g chk s t = .ok s' → s'.mode.isRaw = false) := by
+    (hraw : s.mode.isRaw = true → isEndRaw t = true ∨ (t.ty ≠ .tag ∧ t.ty ≠ .obj)) :
+    parseStep g chk s.unsrc (unsrc t) = (parseStep g chk s t).mapOk PState.unsrc := by
   obtain ⟨cur, st, mode⟩ := s
   cases mode with
-  | raw o sl => cases hm
+  | raw o sl =>
+    rcases hraw rfl with he | ⟨h1, h2⟩
+    · have he' := he
+      unfold isEndRaw at he'
+      simp only [parseStep, PState.unsrc, PMode.unsrc, unsrc_ty, unsrc_name, he', if_true, Res.mapOk, unsrcList, AST.unsrc]
+    · have hne : (t.ty == TokTy.tag && t.name == endrawName) = false := by simp [h1]
+      rw [unsrc_of_not_tag_obj h1 h2]
+      simp only [parseStep, PState.unsrc, PMode.unsrc, hne, Bool.false_eq_true, if_false, Res.mapOk]
   | comment o =>
-    constructor
-    · simp only [parseStep, PState.unsrc, PMode.unsrc, unsrc_ty, unsrc_name]
-      split <;> rfl
-    · intro s' h
-      simp only [parseStep] at h
-      split at h <;> (cases h; rfl)
+    simp only [parseStep, PState.unsrc, PMode.unsrc, unsrc_ty, unsrc_name]
+    split <;> rfl
   | normal =>
     cases hty : t.ty with
     | text =>
-      constructor
-      · rw [unsrc_of_text hty]
-        simp [parseStep, hty, PState.unsrc, PMode.unsrc, Res.mapOk, unsrcList, AST.unsrc]
-      · intro s' h; simp only [parseStep, hty] at h; cases h; rfl
-    | trimL =>
-      constructor
-      · simp [parseStep, hty, PState.unsrc, PMode.unsrc, Res.mapOk, unsrcList, AST.unsrc]
-      · intro s' h; simp only [parseStep, hty] at h; cases h; rfl
-    | trimR =>
-      constructor
-      · simp [parseStep, hty, PState.unsrc, PMode.unsrc, Res.mapOk, unsrcList, AST.unsrc]
-      · intro s' h; simp only [parseStep, hty] at h; cases h; rfl
+      rw [unsrc_of_text hty]
+      simp [parseStep, hty, PState.unsrc, PMode.unsrc, Res.mapOk, unsrcList, AST.unsrc]
+    | trimL => simp [parseStep, hty, PState.unsrc, PMode.unsrc, Res.mapOk, unsrcList, AST.unsrc]
+    | trimR => simp [parseStep, hty, PState.unsrc, PMode.unsrc, Res.mapOk, unsrcList, AST.unsrc]
     | obj =>
-      constructor
-      · simp only [parseStep, hty, PState.unsrc, PMode.unsrc, unsrc_ty, unsrc_args, unsrc_line]
-        cases chk t.args <;> simp [Res.mapOk, PState.unsrc, PMode.unsrc, unsrcList, AST.unsrc]
-      · intro s' h
-        simp only [parseStep, hty] at h
-        split at h
-        · cases h
-        · cases h; rfl
+      simp only [parseStep, hty, PState.unsrc, PMode.unsrc, unsrc_ty, unsrc_args, unsrc_line]
+      cases chk t.args <;> simp [Res.mapOk, PState.unsrc, PMode.unsrc, unsrcList, AST.unsrc]
     | tag =>
-      have hnr : (t.name == rawName) = false := by
-        cases h : t.name == rawName with
-        | false => rfl
-        | true => exact absurd ⟨hty, by simpa using h⟩ ht
-      constructor
-      · simp only [parseStep, hty, PState.unsrc, PMode.unsrc, unsrc_ty, unsrc_name, unsrc_line, hnr]
-        cases hsyn : g.syntaxOf t.name with
-        | none => simp [Res.mapOk, PState.unsrc, PMode.unsrc, unsrcList, AST.unsrc]
-        | some cs =>
-          simp only
-          split
+      simp only [parseStep, hty, PState.unsrc, PMode.unsrc, unsrc_ty, unsrc_name, unsrc_line]
+      cases hsyn : g.syntaxOf t.name with
+      | none => simp [Res.mapOk, PState.unsrc, PMode.unsrc, unsrcList, AST.unsrc]
+      | some cs =>
+        simp only
+        split
+        · simp [Res.mapOk, PState.unsrc, PMode.unsrc]
+        · split
           · simp [Res.mapOk, PState.unsrc, PMode.unsrc]
-          · simp only [Bool.false_eq_true, if_false, parentOk_unsrc]
+          · simp only [parentOk_unsrc]
             split
             · rfl
             · cases cs with
@@ -160,52 +153,116 @@ theorem parseStep_unsrc (g : Grammar) (chk : Bytes → Option Cause) (s : PState
                 | cons f fs =>
                   simp only [List.map_cons, Res.mapOk, PState.unsrc, PMode.unsrc, unsrcList, ← closeFrame_unsrc]
                   rfl
-      · intro s' h
-        simp only [parseStep, hty, hnr] at h
-        split at h
-        · cases h; rfl
+
+/-- the parser is in raw mode after a step only if it was and the token is not `endraw`, or the token is a `raw` tag -/
+theorem parseStep_raw_mode (g : Grammar) (chk : Bytes → Option Cause) (s s' : PState) (t : Token)
+    (h : parseStep g chk s t = .ok s') (hm : s'.mode.isRaw = true) :
+    (s.mode.isRaw = true ∧ isEndRaw t = false) ∨ (t.ty = .tag ∧ t.name = rawName) := by
+  obtain ⟨cur, st, mode⟩ := s
+  cases mode with
+  | raw o sl =>
+    left
+    refine ⟨rfl, ?_⟩
+    simp only [parseStep] at h
+    unfold isEndRaw
+    split at h
+    · cases h; cases hm
+    · next hne => simpa using hne
+  | comment o =>
+    simp only [parseStep] at h
+    split at h <;> (cases h; cases hm)
+  | normal =>
+    cases hty : t.ty with
+    | text => simp only [parseStep, hty] at h; cases h; cases hm
+    | trimL => simp only [parseStep, hty] at h; cases h; cases hm
+    | trimR => simp only [parseStep, hty] at h; cases h; cases hm
+    | obj =>
+      simp only [parseStep, hty] at h
+      split at h
+      · cases h
+      · cases h; cases hm
+    | tag =>
+      simp only [parseStep, hty] at h
+      split at h
+      · cases h; cases hm
+      · split at h
+        · cases h; cases hm
         · split at h
-          · cases h; rfl
-          · simp only [Bool.false_eq_true, if_false] at h
-            split at h
+          · next hr => exact .inr ⟨rfl, by simpa using hr⟩
+          · split at h
             · cases h
             · split at h
-              · cases h; rfl
-              · split at h <;> (cases h; rfl)
-              · cases h; rfl
+              · cases h; cases hm
+              · split at h <;> (cases h; cases hm)
+              · cases h; cases hm
               · cases h
 
-theorem parseLoop_unsrc (g : Grammar) (chk : Bytes → Option Cause) : ∀ (toks : List Token) (s : PState),
-    s.mode.isRaw = false → (∀ t ∈ toks, ¬ (t.ty = .tag ∧ t.name = rawName)) →
-    parseLoop g chk s.unsrc (toks.map unsrc) = (parseLoop g chk s toks).mapOk PState.unsrc ∧
-    (∀ s', parseLoop g chk s toks = .ok s' → s'.mode.isRaw = false)
-  | [], s, hm, _ => ⟨rfl, fun s' h => by simp only [parseLoop] at h; cases h; exact hm⟩
-  | t :: ts, s, hm, ht => by
-    obtain ⟨h1, h2⟩ := parseStep_unsrc g chk s t hm (ht t (List.mem_cons_self ..))
+/-- a sufficient condition on a token list for the parser's raw mode to meet only tokens whose source `unsrc`
+    keeps: from a tag named `raw` up to the next `endraw` tag there is no other tag and no object (`inRaw`: a
+    `raw` tag has been passed) -/
+def rawSafe : Bool → List Token → Bool
+  | _, [] => true
+  | false, t :: ts => rawSafe (t.ty == .tag && t.name == rawName) ts
+  | true, t :: ts => if isEndRaw t then rawSafe false ts else (t.ty != .tag && t.ty != .obj) && rawSafe true ts
+
+theorem parseLoop_unsrc (g : Grammar) (chk : Bytes → Option Cause) : ∀ (toks : List Token) (s : PState) (flag : Bool),
+    (s.mode.isRaw = true → flag = true) → rawSafe flag toks = true →
+    parseLoop g chk s.unsrc (toks.map unsrc) = (parseLoop g chk s toks).mapOk PState.unsrc
+  | [], _, _, _, _ => rfl
+  | t :: ts, s, flag, hinv, hs => by
+    have hraw : s.mode.isRaw = true → isEndRaw t = true ∨ (t.ty ≠ .tag ∧ t.ty ≠ .obj) := by
+      intro hm
+      have := hinv hm
+      subst this
+      simp only [rawSafe] at hs
+      split at hs
+      · next he => exact .inl he
+      · simp only [Bool.and_eq_true, bne_iff_ne, ne_eq] at hs
+        exact .inr hs.1
+    have h1 := parseStep_unsrc g chk s t hraw
     simp only [List.map_cons, parseLoop, h1]
     cases hst : parseStep g chk s t with
     | ok s1 =>
-      have := parseLoop_unsrc g chk ts s1 (h2 s1 hst) (fun x hx => ht x (List.mem_cons_of_mem _ hx))
       simp only [Res.mapOk]
-      exact this
-    | err e => exact ⟨rfl, fun s' h => by cases h⟩
-    | panic w => exact ⟨rfl, fun s' h => by cases h⟩
-    | unmodelled w => exact ⟨rfl, fun s' h => by cases h⟩
+      cases flag with
+      | false =>
+        simp only [rawSafe] at hs
+        refine parseLoop_unsrc g chk ts s1 _ ?_ hs
+        intro hm
+        rcases parseStep_raw_mode g chk s s1 t hst hm with ⟨h, _⟩ | ⟨h1, h2⟩
+        · have := hinv h; cases this
+        · simp [h1, h2]
+      | true =>
+        simp only [rawSafe] at hs
+        split at hs
+        · next he =>
+          refine parseLoop_unsrc g chk ts s1 false ?_ hs
+          intro hm
+          rcases parseStep_raw_mode g chk s s1 t hst hm with ⟨_, h⟩ | ⟨h1, h2⟩
+          · rw [he] at h; cases h
+          · unfold isEndRaw at he
+            simp only [h2, Bool.and_eq_true, beq_iff_eq] at he
+            exact absurd he.2 (by decide)
+        · simp only [Bool.and_eq_true] at hs
+          exact parseLoop_unsrc g chk ts s1 true (fun _ => rfl) hs.2
+    | err e => rfl
+    | panic w => rfl
+    | unmodelled w => rfl
 
-/-- on token lists without a `raw` tag the block parser commutes with erasing tag/object sources -/
+/-- on token lists in which a `raw` tag is followed, up to the `endraw` tag, by texts and trim markers only, the
+    block parser commutes with erasing tag/object sources -/
 theorem parseTokens_unsrc (g : Grammar) (chk : Bytes → Option Cause) (toks : List Token)
-    (ht : ∀ t ∈ toks, ¬ (t.ty = .tag ∧ t.name = rawName)) :
+    (ht : rawSafe false toks = true) :
     parseTokens g chk (toks.map unsrc) = (parseTokens g chk toks).mapOk unsrcList := by
-  obtain ⟨h1, h2⟩ := parseLoop_unsrc g chk toks {} rfl ht
-  have hL : parseLoop g chk {} (toks.map unsrc) = (parseLoop g chk {} toks).mapOk PState.unsrc := h1
+  have hL : parseLoop g chk {} (toks.map unsrc) = (parseLoop g chk {} toks).mapOk PState.unsrc :=
+    parseLoop_unsrc g chk toks {} false (fun h => by cases h) ht
   unfold parseTokens
   rw [hL]
   cases hl : parseLoop g chk {} toks with
   | ok s =>
-    have hm := h2 s hl
     obtain ⟨cur, st, mode⟩ := s
     cases mode with
-    | raw o sl => cases hm
+    | raw o sl => simp [Res.mapOk, PState.unsrc, PMode.unsrc]
     | comment o => simp [Res.mapOk, PState.unsrc, PMode.unsrc]
     | normal =>
       cases st with
@@ -283,9 +340,9 @@ theorem firstUnmodelledObj_unsrc : ∀ toks : List Token, firstUnmodelledObj (to
   | t :: ts => by
     simp only [List.map_cons, firstUnmodelledObj, unsrc_ty, unsrc_args, firstUnmodelledObj_unsrc ts]
 
-/-- on token lists without a `raw` tag, compilation does not depend on the source text of tag and
-    object tokens -/
-theorem compileTokens_unsrc (toks : List Token) (ht : ∀ t ∈ toks, ¬ (t.ty = .tag ∧ t.name = rawName)) :
+/-- on token lists whose raw blocks hold texts and trim markers only, compilation does not depend on the source
+    text of tag and object tokens -/
+theorem compileTokens_unsrc (toks : List Token) (ht : rawSafe false toks = true) :
     compileTokens (toks.map unsrc) = compileTokens toks := by
   unfold compileTokens
   rw [firstUnmodelledObj_unsrc, parseTokens_unsrc stdGrammar objChk toks ht]
@@ -300,6 +357,6 @@ theorem compileTokens_unsrc (toks : List Token) (ht : ∀ t ∈ toks, ¬ (t.ty =
 
 /-- two token lists that agree up to the sources of tag and object tokens compile alike -/
 theorem compileTokens_congr (a b : List Token) (h : a.map unsrc = b.map unsrc)
-    (ha : ∀ t ∈ a, ¬ (t.ty = .tag ∧ t.name = rawName)) (hb : ∀ t ∈ b, ¬ (t.ty = .tag ∧ t.name = rawName)) :
+    (ha : rawSafe false a = true) (hb : rawSafe false b = true) :
     compileTokens a = compileTokens b := by
   rw [← compileTokens_unsrc a ha, h, compileTokens_unsrc b hb]
